@@ -1,8 +1,9 @@
 #!/bin/bash
-# MANIFEST.setup_cmd: build the Lean library (model, proofs, property theorems) and the driver.
+# MANIFEST.setup_cmd: build the Lean library (model, proofs, every property module) and the driver.
 set -e
 HERE="$(cd "$(dirname "${BASH_SOURCE[0]}")" && pwd)"
 cd "$HERE/lean"
-lake build LW lwdriver 2>&1 | tail -n 20
+MODS=$(ls LW/Properties/*.lean | sed 's#/#.#g; s#\.lean$##')
+lake build lwdriver $MODS 2>&1 | tail -n 15
 test -x .lake/build/bin/lwdriver
 echo "setup ok"
